@@ -85,6 +85,11 @@ AttackList == <<
 AttackOk == \A i \in 1..Len(AttackList) : Supported(AttackList[i])
 EmitAttack == (phase = "field") => \A i \in 1..Len(AttackList) : PrintT(<<"ATTACK", ToJson(CaseOf(AttackList[i]))>>)
 
+\* Satisfied instances whose trace columns all have degree < L - 1 (constant column): outside Supported
+\* because of NonDegenerate, exercised separately (recorded finding, DESIGN 8)
+DegenerateList == << [B(1, <<"id">>) EXCEPT !.log_len = 4], [B(2, <<"id", "id">>) EXCEPT !.log_len = 3, !.ext = 2] >>
+EmitDegenerate == (phase = "field") => \A i \in 1..Len(DegenerateList) : PrintT(<<"DEGENERATE", ToJson(CaseOf(DegenerateList[i]))>>)
+
 BadBoundary == {i \in 1..Len(BoundaryList) : ~Supported(BoundaryList[i])}
 ShowBad == (phase = "field") => PrintT(<<"BAD", BadBoundary>>)
 BNext == FALSE /\ UNCHANGED vars
